@@ -43,7 +43,7 @@ def showRead (r : List Nat × Nat × TailKind) : String :=
 
 structure DSt where
   h : Heap
-  strings : Array Cell := #[]
+  strings : Array (Option (Cell × Nat)) := #[]
   counter : Nat := 0
   out : Array String := #[]
 
@@ -81,8 +81,8 @@ def runOp (st : DSt) (op : String) : DSt :=
     { st with h := h', out := st.out.push (tok "ok" h') }
   | "grow" :: _ => report st (step h .grow) fun _ _ => none
   | "read" :: _ | "step" :: _ =>
-    let r := match (arg 1).bind (st.strings[·]?) with
-      | some c => showRead (denote h c)
+    let r := match ((arg 1).bind (st.strings[·]?)).join with
+      | some (c, _) => showRead (denote h c)
       | none => "na"
     { st with out := st.out.push (tok "ok" h (some r)) }
   | "push" :: _ =>
@@ -94,20 +94,22 @@ def runOp (st : DSt) (op : String) : DSt :=
   | "pstr" :: x :: _ =>
     let st' := report st (h.allocatePstr (hexBytes x)) fun _ c => some (cellDesc c)
     match h.allocatePstr (hexBytes x) with
-    | .ok _ c => { st' with strings := st'.strings.push c }
+    | .ok h' c => { st' with strings := st'.strings.push (some (c, h'.cellLen + 1)) }
     | _ => st'
   | "cstr" :: x :: _ =>
     let st' := report st (h.allocateCstr (hexBytes x)) fun _ c => some (cellDesc c)
     match h.allocateCstr (hexBytes x) with
-    | .ok _ c => { st' with strings := st'.strings.push c }
+    | .ok h' c => { st' with strings := st'.strings.push (some (c, h'.cellLen)) }
     | _ => st'
   | "copypstr" :: _ =>
     match arg 1, arg 2 with
     | some k, some off =>
-      match st.strings[k]? with
-      | some (.pstrLoc b) =>
+      match (st.strings[k]?).join with
+      | some (.pstrLoc b, _) =>
         let loc := b + off
-        if loc ≥ h.len then { st with out := st.out.push (tok "bad" h) }
+        let segLen := if b ≥ h.len then 0 else
+          match scanSliceToStr h.mem h.len b with | some (str, _) => str.length | none => 0
+        if off ≥ segLen then { st with out := st.out.push (tok "bad" h) }
         else report st (h.copyPstrWithin loc) fun h' t =>
           match scanSliceToStr h'.mem h'.len h.len with
           | some (str, tl) => some s!"T{t}:{hexOfBytes str}@{tl}"
@@ -116,7 +118,9 @@ def runOp (st : DSt) (op : String) : DSt :=
     | _, _ => { st with out := st.out.push (tok "bad" h) }
   | "copyslice" :: _ =>
     match arg 1, arg 2 with
-    | some a, some b => report st (h.copySliceToEnd a b) fun _ _ => none
+    | some a, some b =>
+      if h.cap = 0 then { st with out := st.out.push (tok "bad" h) }
+      else report st (h.copySliceToEnd a b) fun _ _ => none
     | _, _ => { st with out := st.out.push (tok "bad" h) }
   | "reserve" :: _ =>
     match arg 1, arg 2 with
@@ -130,11 +134,18 @@ def runOp (st : DSt) (op : String) : DSt :=
     | _, _ => { st with out := st.out.push (tok "bad" h) }
   | "append" :: _ =>
     match arg 1 with
-    | some n => report st (h.append ((rawCells n).flatMap encodeCell)) fun _ _ => none
+    | some n =>
+      if h.cap = 0 then { st with out := st.out.push (tok "bad" h) }
+      else report st (h.append ((rawCells n).flatMap encodeCell)) fun _ _ => none
     | none => { st with out := st.out.push (tok "bad" h) }
   | "truncate" :: _ =>
     match arg 1 with
-    | some c => report st (h.truncate c) fun _ _ => none
+    | some c =>
+      let st' := report st (h.truncate c) fun _ _ => none
+      match h.truncate c with
+      | .ok _ _ => { st' with strings := st'.strings.map fun e =>
+          match e with | some (cl, e') => if e' > c then none else some (cl, e') | none => none }
+      | _ => st'
     | none => { st with out := st.out.push (tok "bad" h) }
   | "functor" :: x :: _ =>
     report st (step h (.functor (errorStub (hexBytes x)))) fun _ r =>
